@@ -461,6 +461,32 @@ def check_format_sites(ctx, rule, module_filter=None, floor=30):
                     if any(1 <= x <= f.nargs and f.locals[x] in ("&str", "&[u8]", "&std::string::String") for x in seen):
                         escs = escs | {k}
         facts._name_escapers = escs
+    # a name escaper works on the UTF-8 *bytes* of the name (ISO 32000-1 §7.3.5 / the writers' and readers' convention here):
+    # a `char as u8` cast inside one, not dominated by the true edge of an `is_ascii*` test, truncates the code point of a
+    # non-ASCII character to its low byte (`é` -> #E9, `图` -> #FE) — a different name, or an undecodable one
+    for k in sorted(escs):
+        f = facts.fns[k]
+        for g_ in L.group(facts, k):
+            gg = CF.cfg(g_)
+            guards = []
+            for b, c, a, d in L.calls_matching(g_, lambda c: "is_ascii" in L.short(c.get("p") or "")):
+                te, fe = L.bool_edges(g_, d[0])
+                guards += te
+            j = 0
+            for b, blk in enumerate(g_.blocks):
+                for st in blk[0]:
+                    rv = st[2]
+                    if rv[0] == "cast" and rv[1] == "IntToInt" and rv[3] == "u8" and rv[4] == "char":
+                        j += 1
+                        key = "name-escaper:%s:char-as-u8#%d" % (k, j)
+                        w = CF.must_pass(g_, [b], [], guard_edges=guards) if guards else [0, b]
+                        if w is None:
+                            ctx.ok(rule, key, "cast reached only for ASCII characters", g_.where(b))
+                        else:
+                            ctx.violation(rule, key, "the name escaper %s casts a `char` to `u8` on a path not restricted to ASCII "
+                                          "characters: a non-ASCII character of the name is truncated to the low byte of its code point "
+                                          "(`é` -> #E9 instead of #C3#A9) instead of being escaped byte by byte in UTF-8 — the name "
+                                          "written is not the name the reader (UTF-8) gets back" % L.short(k), g_.where(b))
     for fn in facts.fns.values():
         owner = fn.parent or fn.id
         if owner in escs or (module_filter and not module_filter(owner)):
